@@ -212,6 +212,11 @@ func parseContractText(text, path, pkgPath string) (*ContractFile, error) {
 		case "recursive":
 			flush()
 			cf.Recursive[rest] = true
+		case "uninterpreted":
+			// uninterpreted <func>: calls are uninterpreted applications (meaning given only by contracts that mention it)
+			flush()
+			cf.Recursive[rest] = true
+			cf.Pure[rest] = true
 		case "predicate":
 			// predicate name(p1 T1, p2 T2): <expr>   (a named formula usable in contracts; may use quantifiers)
 			flush()
@@ -419,6 +424,36 @@ func (cf *ContractFile) addClause(c *Contract, kw, text, path string, line int) 
 		}
 		c.Loops = append(c.Loops, &LoopClause{Ord: n, Kind: f[0], Src: src, Expr: e})
 	case "at":
+		// at loop <n> end: assert <expr>   (checked at the end of every iteration, before the invariants)
+		if strings.HasPrefix(text, "loop ") {
+			k := strings.Index(text, ":")
+			if k < 0 {
+				return fmt.Errorf("bad at loop clause")
+			}
+			f := strings.Fields(text[5:k])
+			if len(f) != 2 || (f[1] != "end" && f[1] != "entry") {
+				return fmt.Errorf("bad at loop clause (want: at loop <n> end|entry: assert <expr>)")
+			}
+			n, err := strconv.Atoi(f[0])
+			if err != nil {
+				return fmt.Errorf("bad loop ordinal")
+			}
+			rest := strings.TrimSpace(text[k+1:])
+			if !strings.HasPrefix(rest, "assert ") {
+				return fmt.Errorf("at loop end supports assert only")
+			}
+			src := strings.TrimSpace(rest[7:])
+			e, err := parseSpecExpr(src)
+			if err != nil {
+				return fmt.Errorf("cannot parse %q: %v", src, err)
+			}
+			kind := "endassert"
+			if f[1] == "entry" {
+				kind = "entryassert"
+			}
+			c.Loops = append(c.Loops, &LoopClause{Ord: n, Kind: kind, Src: src, Expr: e})
+			return nil
+		}
 		// at call <callee>#<k>: assert <expr> | ghost $g = <expr> | assume <expr>
 		if !strings.HasPrefix(text, "call ") {
 			return fmt.Errorf("bad at clause")
@@ -637,7 +672,17 @@ func rewriteSpec(s string) string {
 			}
 			inner := s[i+1 : j-1]
 			sb.WriteByte(c)
-			if c == '(' {
+			isCall := false
+			for k := i - 1; k >= 0; k-- {
+				if s[k] == ' ' {
+					continue
+				}
+				isCall = isIdentChar(s[k]) || s[k] == ')' || s[k] == ']'
+				break
+			}
+			if c == '(' && !isCall {
+				sb.WriteString(rewriteSpec(inner))
+			} else if c == '(' {
 				parts := splitTop(inner, ',')
 				for pi, part := range parts {
 					if pi > 0 {
@@ -703,6 +748,7 @@ type CEnv struct {
 	locals func(name string, st *State) (Value, types.Type, bool)
 	where  string
 	qdepth int
+	visitedOf func(m MapV, st *State) (*Term, bool)
 }
 
 func (e *CEnv) fail(format string, a ...interface{}) {
@@ -841,6 +887,39 @@ func (e *CEnv) eval(x ast.Expr) (Value, types.Type) {
 		return e.evalSlice(n)
 	case *ast.CallExpr:
 		return e.evalCall(n)
+	case *ast.CompositeLit:
+		tv, _ := e.eval(n.Type)
+		tt, ok := tv.(typeV)
+		if !ok {
+			e.fail("composite literal needs a type")
+		}
+		st, ok := tt.T.Underlying().(*types.Struct)
+		if !ok {
+			e.fail("only struct composite literals are supported in contracts")
+		}
+		sv := zeroValue(tt.T).(StructV)
+		for i, el := range n.Elts {
+			idx := i
+			var ve ast.Expr = el
+			if kv, ok := el.(*ast.KeyValueExpr); ok {
+				name := kv.Key.(*ast.Ident).Name
+				idx = -1
+				for k := 0; k < st.NumFields(); k++ {
+					if st.Field(k).Name() == name {
+						idx = k
+					}
+				}
+				if idx < 0 {
+					e.fail("no field %s", name)
+				}
+				ve = kv.Value
+			}
+			v, t := e.eval(ve)
+			v, _ = materialize(v, st.Field(idx).Type())
+			_ = t
+			sv.F[idx] = v
+		}
+		return sv, tt.T
 	}
 	_ = p
 	e.fail("unsupported expression %T", x)
@@ -1113,7 +1192,7 @@ func (e *CEnv) evalIndex(n *ast.IndexExpr) (Value, types.Type) {
 		k, kt := e.eval(n.Index)
 		k, _ = materialize(k, b.K)
 		_ = kt
-		has := e.p.mapHas(e.st, b, k)
+		has := And(Neq(b.Ref, BVInt(0, 64)), e.p.mapHas(e.st, b, k))
 		return e.p.iteValue(e.st, has, e.p.mapGet(e.st, b, k), zeroValue(b.V)), b.V
 	}
 	e.fail("unsupported index base %T (%v)", v, t)
@@ -1323,6 +1402,30 @@ func (e *CEnv) evalCall(n *ast.CallExpr) (Value, types.Type) {
 				b, tb = materialize(b, ta)
 			}
 			return e.p.iteValue(e.st, cnd, a, b), ta
+		case "same":
+			// same(a, b): identical values (for floats: the same datum, unlike ==, which is false for NaN)
+			a, ta := e.eval(n.Args[0])
+			b, tb := e.eval(n.Args[1])
+			a, ta = materialize(a, constTarget(tb))
+			b, _ = materialize(b, constTarget(ta))
+			return Scalar{Eq(a.(Scalar).T, b.(Scalar).T)}, boolT
+		case "visited":
+			// visited(m, k): key k has already been produced by the innermost range loop over map m
+			mv, _ := e.eval(n.Args[0])
+			m, ok := mv.(MapV)
+			if !ok {
+				e.fail("visited needs a map")
+			}
+			k, _ := e.eval(n.Args[1])
+			k, _ = materialize(k, m.K)
+			if e.visitedOf == nil {
+				e.fail("visited() is only available in loop invariants of range-over-map loops")
+			}
+			vis, ok := e.visitedOf(m, e.st)
+			if !ok {
+				e.fail("no range loop over this map is active")
+			}
+			return Scalar{selN(vis, p.keyTerms(e.st, m.K, k))}, boolT
 		case "in":
 			k, _ := e.eval(n.Args[0])
 			mv, _ := e.eval(n.Args[1])
@@ -1518,7 +1621,7 @@ func (p *Proof) specApp(fn *ssa.Function, args []Value, rt types.Type) Value {
 	}
 	name := B.DeclareFun("spec."+fn.Pkg.Pkg.Name()+"."+fn.Name(), sorts, rs)
 	app := B.App(name, rs, argTerms...)
-	if !p.specSeen[app.id] && !p.inSpecUnfold {
+	if !p.specSeen[app.id] && !p.inSpecUnfold && !p.eng.uninterpretedSpec[funcKey(fn)] {
 		p.specSeen[app.id] = true
 		// unfold once: app == body(args) with recursive calls left uninterpreted
 		p.inSpecUnfold = true
